@@ -262,9 +262,36 @@ def run(ctx):
         return n.ast is not None and n.kind != "for" and any(
             isinstance(x, ast.Call) and norm(x.func) == "self.block.evaluate" for x in ast.walk(n.ast))
 
+    from .common import resolve_static_call
+
+    def checked_helper(call):
+        """a method of the node that evaluates self.expression and returns that value only when it is a boolean"""
+        callee = resolve_static_call(model, nw, call) if isinstance(call, ast.Call) else None
+        if callee is None or callee is nw:
+            return False
+        gh = CFG(callee.node, implicit_exc=False)
+        from ..facts import must_facts as _mfh
+        fh = _mfh(gh)
+        vars_ = {a.targets[0].id for a in ast.walk(callee.node) if isinstance(a, ast.Assign)
+                 and isinstance(a.targets[0], ast.Name) and norm(a.value).startswith("self.expression.evaluate(")}
+        rets = [n for n in gh.nodes if n.kind == "return"]
+        return bool(vars_) and bool(rets) and all(
+            isinstance(r.ast.value, ast.Name) and r.ast.value.id in vars_
+            and (f"{r.ast.value.id}.isBoolean()", True) in fh.get(r.id, frozenset()) for r in rets)
+
+    helper_checked = set()
+    direct_reeval = set()
+
     def is_reeval(n):
-        return isinstance(n.ast, ast.Assign) and isinstance(n.ast.targets[0], ast.Name) \
-            and norm(n.ast.value).startswith("self.expression.evaluate(")
+        if not (isinstance(n.ast, ast.Assign) and isinstance(n.ast.targets[0], ast.Name)):
+            return False
+        if norm(n.ast.value).startswith("self.expression.evaluate("):
+            direct_reeval.add(n.ast.targets[0].id)
+            return True
+        if checked_helper(n.ast.value):
+            helper_checked.add(n.ast.targets[0].id)
+            return True
+        return False
 
     cvs = {n.ast.targets[0].id for n in g.nodes if is_reeval(n)}
     if len(cvs) != 1:
@@ -293,7 +320,7 @@ def run(ctx):
                   f"path through the body (e.g. `continue`) the condition is not re-evaluated before the next iteration",
                   expr="condition fresh at loop test",
                   site="NodeWhile.evaluate: condition re-evaluated on every path to the loop test")
-        ok = (f"{cv}.isBoolean()", True) in facts.get(t.id, frozenset())
+        ok = (f"{cv}.isBoolean()", True) in facts.get(t.id, frozenset()) or (cv in helper_checked and cv not in direct_reeval)
         ctx.check("C04.while", nw, t.ast, ok,
                   "the loop test uses a condition that has not been checked with isBoolean() since it was evaluated",
                   expr="condition type-checked", site="NodeWhile.evaluate: condition type-checked before every test")
